@@ -18,6 +18,7 @@ record('Module', {'_Module__module_path': 'ModulePathRef', '_Module__entrypoint'
 
 external('mod_in_storage', [('m', 'ModuleRef')], 'bool', note='Module.in_storage(): the module file exists')
 external('src_exists', [('l', 'Loader'), ('p', 'str')], 'bool', note='ISourceLoader.exists')
+external('symbols_path', [('p', 'SymbolDBPersistor'), ('m', 'ModuleRef')], 'str', note='SymbolDBPersistor._gen_filepath(module): the symbols file of the module under the cache directory')
 external('src_hash', [('l', 'Loader'), ('p', 'str')], 'str', note='ISourceLoader.hash: md5 of the file content')
 external('import_files', [('e', 'Entrypoint')], 'list[str]', note='file paths of the modules imported *directly* by the module (entrypoint.imports)')
 external('own_file', [('p', 'ModulePathRef')], 'str', note='Module.filepath')
